@@ -169,3 +169,64 @@ func verifSplitTop(s string) []string {
 
 func VerifHarness_C05_quick()    { verifC05(2) }
 func VerifHarness_C05_thorough() { verifC05(3) }
+
+// verifC05Multi: several tables change in one plan, in any order: a table that
+// must be rebuilt (or is dropped) anywhere in the plan requires the whole plan
+// to run with foreign-key enforcement off, otherwise the rebuild's DROP TABLE
+// cascades into the rows of other tables. Every DROP TABLE statement must lie
+// between `PRAGMA foreign_keys = off` (first) and `= on` (last).
+func verifC05Multi() {
+	sch := schema.New("main")
+	mk := func(name string) *schema.Table {
+		t := schema.NewTable(name).SetSchema(sch)
+		t.AddColumns(schema.NewIntColumn("id", "integer"), schema.NewIntColumn("v", "integer"))
+		return t
+	}
+	kinds := []int{verifChoice("k0", 4), verifChoice("k1", 4), verifChoice("k2", 4)} // per table: 0 untouched, 1 in place, 2 rebuild, 3 drop
+	order := [][]int{{0, 1, 2}, {2, 1, 0}, {1, 0, 2}, {1, 2, 0}}[verifChoice("order", 4)]
+	var changes []schema.Change
+	needOff := false
+	for _, ti := range order {
+		t := mk(fmt.Sprintf("t%d", ti))
+		switch kinds[ti] {
+		case 1:
+			idx := schema.NewIndex(fmt.Sprintf("i%d", ti)).AddColumns(t.Columns[1])
+			t.AddIndexes(idx)
+			changes = append(changes, &schema.ModifyTable{T: t, Changes: []schema.Change{&schema.AddIndex{I: idx}}})
+		case 2:
+			changes = append(changes, &schema.ModifyTable{T: t, Changes: []schema.Change{&schema.DropColumn{C: schema.NewIntColumn("x", "integer")}}})
+			needOff = true
+		case 3:
+			changes = append(changes, &schema.DropTable{T: t})
+			needOff = true
+		}
+	}
+	if len(changes) == 0 {
+		return
+	}
+	plan, err := DefaultPlan.PlanChanges(context.Background(), "p", changes)
+	verifAssert(err == nil, "the change set is planned")
+	if err != nil {
+		return
+	}
+	verifReach("planned")
+	n := len(plan.Changes)
+	first, last := plan.Changes[0].Cmd, plan.Changes[n-1].Cmd
+	if needOff {
+		verifReach("wrapped")
+		verifAssert(first == "PRAGMA foreign_keys = off" && last == "PRAGMA foreign_keys = on", "a plan that drops or rebuilds a table runs with foreign-key enforcement off")
+	}
+	off := false
+	for _, c := range plan.Changes {
+		switch {
+		case c.Cmd == "PRAGMA foreign_keys = off":
+			off = true
+		case c.Cmd == "PRAGMA foreign_keys = on":
+			off = false
+		case strings.HasPrefix(c.Cmd, "DROP TABLE"):
+			verifAssert(off, "no table is dropped while foreign keys are enforced")
+		}
+	}
+}
+
+func VerifHarness_C05_multi() { verifC05Multi() }
